@@ -81,10 +81,9 @@ class FCISolverPySCF(ElectronicStructureSolver):
             self.cisolver = fci.direct_spin1.FCI()
         else:
             self.cas = False
-            if self.spin == 0:
-                self.cisolver = fci.direct_spin0.FCI(molecule.mean_field.mol)
-            else:
-                self.cisolver = fci.direct_spin1.FCI()
+            # direct_spin1 for every spin: direct_spin0 only finds even-spin states, whereas the ground state of the
+            # (n_alpha, n_beta) sector may be the Sz = 0 component of a triplet (same solver as with frozen orbitals).
+            self.cisolver = fci.direct_spin1.FCI()
 
         self.cisolver.verbose = 0
         self.mean_field = molecule.mean_field
@@ -113,10 +112,7 @@ class FCISolverPySCF(ElectronicStructureSolver):
 
             ecore = self.mean_field.energy_nuc()
 
-            if self.spin == 0:
-                energy, self.ci = self.cisolver.kernel(h1, eri, h1.shape[1], self.nelec, ecore=ecore)
-            else:
-                energy, self.ci = self.cisolver.kernel(h1, eri, h1.shape[1], (self.n_alpha, self.n_beta), ecore=ecore)
+            energy, self.ci = self.cisolver.kernel(h1, eri, h1.shape[1], (self.n_alpha, self.n_beta), ecore=ecore)
 
         return energy
 
